@@ -219,6 +219,7 @@ class Sequential(Facet):
 
 class Parallel(Facet):
     name = "parallel_evaluator"
+    fuzz_runs = 0  # every case spawns processes: too slow for a coverage-guided campaign
 
     def budget(self, tier):
         return (6, 8) if tier == "quick" else (40, 16)
@@ -290,6 +291,7 @@ class GPRuns(Facet):
     the counter equals the number of fitness-function invocations."""
 
     name = "gp_runs_evaluate_each_individual_once"
+    fuzz_runs = 0  # every case spawns processes: too slow for a coverage-guided campaign
 
     def budget(self, tier):
         return (30, 6) if tier == "quick" else (200, 16)
